@@ -177,3 +177,8 @@ mod tests {
         accept_handle.await.unwrap();
     }
 }
+
+#[cfg(kani)]
+mod verif_kani {
+    include!(concat!(env!("REPE_VERIF_KANI"), "/async_server.rs"));
+}
